@@ -133,6 +133,15 @@ class Model:
         if tgt.get('kind') == 'DeclRefExpr':
             env[tgt['referencedDecl']['name']] = val
             return val
+        if tgt.get('kind') == 'MemberExpr':
+            base = ex.ev(tgt['inner'][0], env)
+            if isinstance(base, Ptr):
+                base = base.target
+            if isinstance(base, Rec) and base.kind == 'config' and tgt['name'] in base.f:
+                # a store through the config pointer: performed, and seen by the frame obligation at the end of the path
+                base.f[tgt['name']] = val
+                self.config_writes = getattr(self, 'config_writes', []) + [(tgt['name'], line_of(node))]
+                return val
         raise CheckerError(f'assignment to {tgt.get("kind")} at parsing.h:{line_of(node)} is not modelled')
 
     def global_ref(self, ex, name, node):
@@ -195,6 +204,9 @@ class Model:
             if isinstance(obj, Abstract) and obj.kind == 'matrix':
                 r, c = args[1], args[2]
                 ex.oblige('bounds', z3.And(r >= 0, r < obj.rows, c >= 0, c < obj.cols), node, f'{obj.name}(row, column) inside the matrix')
+                if obj.name in ('tag_out_scores', 'dep_out_scores'):
+                    # compute_outside_probabilities establishes out(a, b) = P(a) + P(length) - P(b) only for a <= b, a < length, 1 <= b (contracts/parsing_h_helpers.py)
+                    ex.oblige('defined-range', z3.And(r <= c, r < g.length, c >= 1), node, f'{obj.name}(start, end) is read where compute_outside_probabilities defines it')
                 return obj.fn(r, c)
             if isinstance(obj, Abstract) and obj.kind == 'apply_binary':
                 return Abstract('binary_results', x=args[1], y=args[2])
@@ -351,11 +363,25 @@ def base_env(g):
 
 
 def find_loops(fn):
+    """the three top-level loops of parse_sentence: score setup, leaf items, search (for or while); as (cond, body) the search loop is loop_parts(fors[2])"""
     body = body_of(fn)
-    fors = [s for s in body['inner'] if s['kind'] == 'ForStmt']
-    if len(fors) != 3:
-        raise CheckerError(f'parse_sentence has {len(fors)} top-level for loops (expected: score setup, leaf items, search)')
+    fors = [s for s in body['inner'] if s['kind'] in ('ForStmt', 'WhileStmt')]
+    if len(fors) != 3 or fors[0]['kind'] != 'ForStmt' or fors[1]['kind'] != 'ForStmt':
+        raise CheckerError(f'parse_sentence has {len(fors)} top-level loops (expected: score setup, leaf items, search)')
     return body, fors
+
+
+def loop_parts(loop):
+    if loop['kind'] == 'WhileStmt':
+        inner = [c for c in loop['inner'] if c.get('kind')]
+        return inner[0], inner[-1]
+    parts = loop['inner']
+    return parts[2], parts[-1]
+
+
+def config_frame(g, env0_config, cfg):
+    """frame of parse_sentence w.r.t. the configuration: every field of *config is at the end of the path what it was at entry"""
+    return z3.And([cfg.f[k] == env0_config[k] for k in sorted(env0_config)])
 
 
 # ------------------------------------------------------------------------------ phase A: one arbitrary iteration of the search loop
@@ -365,9 +391,7 @@ def run_main_loop(ast):
     fn = ast.function('parse_sentence')
     body, fors = find_loops(fn)
     loop = fors[2]
-    parts = loop['inner']
-    loop_body = parts[-1]
-    cond = parts[2]
+    cond, loop_body = loop_parts(loop)
     ex = Exec(ast, m)
     records = []
 
@@ -379,8 +403,8 @@ def run_main_loop(ast):
             # argmax contract: dep(t, j) <= best_dep(t) for every column j <= length ; instantiated at the heads in play
             for it2 in items:
                 h2 = it2.f['head_id']
-                fs.append(z3.Implies(z3.And(h2 + 1 >= 0, h2 + 1 <= g.length), g.dep(h, h2 + 1) <= g.BD(h)))
-            fs.append(g.dep(h, 0) <= g.BD(h))
+                fs.append(z3.Implies(z3.And(h >= 0, h < g.length, h2 + 1 >= 0, h2 + 1 <= g.length), g.dep(h, h2 + 1) <= g.BD(h)))
+            fs.append(z3.Implies(z3.And(h >= 0, h < g.length), g.dep(h, 0) <= g.BD(h)))
         return fs
 
     def run():
@@ -406,9 +430,14 @@ def run_main_loop(ast):
         def chart_update(ex_, chart, args, node):
             row, col, it = args
             if chart.name == 'goal':
+                ex_.oblige('bounds', z3.And(row >= 0, col >= 0, row + col + 1 <= 1), node, 'goal.update(row, column): the goal chart has the one cell (0, 0)')
                 m.goal_updates.append((row, col, it))
                 return Ptr(Item(dict(it.f), 'goal-entry'))
-            ex_.oblige('bounds', z3.And(row >= 0, row < g.length, col >= 0, col < g.length), node, 'chart(row, column) inside the length x length table')
+            # precondition of chart::update / chart::operator() (contracts/parsing_h_helpers.py): the span (row, row + column + 1) lies inside the sentence
+            ex_.oblige('bounds', z3.And(row >= 0, col >= 0, row + col + 1 <= g.length), node, 'chart.update(row, column): the cell and its start / end lists exist (row + column + 1 <= length)')
+            # chart invariant "the items of cell (row, column) start at row and span column + 1 tokens" is kept by the call site
+            ex_.oblige('chart-key', z3.And(row == it.f['start_of_span'], col == it.f['span_length'] - 1), node,
+                       'an item is filed under the cell of its own span: update(item.start_of_span, item.span_length - 1, item)')
             m.chart_key = (row, col)
             inserted = ex_.fresh('chart_inserts', B_)
             # contract of chart::update: nullptr iff (!nbest && the cell already holds the category); otherwise a pointer to a copy
@@ -444,6 +473,7 @@ def run_main_loop(ast):
         for f in g.base_facts():
             ex.assume(f)
         env['s'] = ex.fresh('s', I_)
+        cfg0 = dict(env['config'].target.f)
         c = ex.truth(ex.ev(cond, env))
         ex.assume(c)
         try:
@@ -452,6 +482,8 @@ def run_main_loop(ast):
             pass
         except _Break:
             pass
+        ex.oblige('frame-config', config_frame(g, cfg0, env['config'].target), loop,
+                  'an iteration of the search loop leaves every field of *config as it found it (parsing.pyx hands one config to all sentences of a run)')
         return 'iteration', dict(pushes=list(m.pushes), goal_updates=list(m.goal_updates), top=top, facts=facts_for)
     outs = explore(ex, run)
     return g, m, outs
@@ -463,7 +495,8 @@ def spec_obligations_main(g, m, outs):
     seen_lines = set()
     for pi, o in enumerate(outs):
         for ob in o['obligations']:
-            recs.append(dict(kind=ob['kind'], line=ob['line'], goal=ob['goal'], pc=ob['pc'], what=ob['what'], props=('C02', 'C09'), path=pi, facts=[]))
+            recs.append(dict(kind=ob['kind'], line=ob['line'], goal=ob['goal'], pc=ob['pc'], what=ob['what'],
+                             props=('C11',) if ob['kind'] == 'frame-config' else ('C01',) if ob['kind'] == 'defined-range' else ('C02', 'C09'), path=pi, facts=[]))
         if o['kind'] != 'iteration':
             continue
         v = o['value']
@@ -642,10 +675,13 @@ def run_leaf_loop(ast):
         m.mode['chart_update'] = None
         m.mode['chart_item'] = None
         m.mode['range'] = None
+        cfg0 = dict(env['config'].target.f)
         try:
             ex.run(parts[-1], env)
         except (_Break, _Continue):
             pass
+        ex.oblige('frame-config', config_frame(g, cfg0, env['config'].target), loop,
+                  'an iteration of the leaf loop leaves every field of *config as it found it')
         return 'iteration', dict(pushes=list(m.pushes), st=dict(st), tok=tok, env_threshold=env.get('threshold'))
     outs = explore(ex, run)
     return g, m, outs
@@ -655,7 +691,8 @@ def spec_obligations_leaf(g, m, outs):
     recs = []
     for pi, o in enumerate(outs):
         for ob in o['obligations']:
-            recs.append(dict(kind=ob['kind'], line=ob['line'], goal=ob['goal'], pc=ob['pc'], what=ob['what'], props=('C16', 'C02'), path=pi, facts=[]))
+            recs.append(dict(kind=ob['kind'], line=ob['line'], goal=ob['goal'], pc=ob['pc'], what=ob['what'],
+                             props=('C11',) if ob['kind'] == 'frame-config' else ('C01',) if ob['kind'] == 'defined-range' else ('C16', 'C02'), path=pi, facts=[]))
         if o['kind'] != 'iteration':
             continue
         v = o['value']
@@ -664,7 +701,7 @@ def spec_obligations_leaf(g, m, outs):
         for p in v['pushes']:
             it, pc, line = p['item'], p['pc'], p['line']
             sc, c = p['popped'] if p['popped'] else (None, None)
-            facts = list(g.base_facts()) + [g.prefix_step(tok), g.exp(sc) > 0 if sc is not None else z3.BoolVal(True), g.exp(g.BT(tok)) > 0]
+            facts = list(g.base_facts()) + [z3.Implies(z3.And(tok >= 0, tok < g.length), g.prefix_step(tok)), g.exp(sc) > 0 if sc is not None else z3.BoolVal(True), g.exp(g.BT(tok)) > 0]
             add = lambda k, goal, what, props: recs.append(dict(kind=k, line=line, goal=goal, pc=pc, what=what, props=props, path=pi, facts=facts, site='leaf'))
             if sc is None:
                 add('beam-source', z3.BoolVal(False), 'a leaf item is pushed without popping the candidate queue', ('C16',))
@@ -845,3 +882,46 @@ def _lambda_records(ast, m, g, name, cbname, lbody, params):
 
 class LambdaThrow(Exception):
     pass
+
+
+# ------------------------------------------------------------------------------ frame of parse_sentence w.r.t. *config (whole function, syntactic)
+def config_frame_scan(ast):
+    """every occurrence of the parameter `config` in parse_sentence (lambdas included) must be the base of a member READ:
+    DeclRefExpr config -> [LValueToRValue] -> MemberExpr -> LValueToRValue cast. Anything else (store, ++/--, compound assignment, address taken,
+    handed to a call, copied into another pointer) is reported: the object is shared by all sentences of a run (parsing.pyx: one c_config per run)."""
+    fn = ast.function('parse_sentence')
+    sites, bad = [], []
+
+    def walk(n, anc):
+        if not isinstance(n, dict):
+            return
+        if n.get('kind') == 'DeclRefExpr' and n.get('referencedDecl', {}).get('name') == 'config' and n['referencedDecl'].get('kind') == 'ParmVarDecl':
+            chain = [a for a in reversed(anc)]
+            i = 0
+            while i < len(chain) and chain[i].get('kind') in ('ImplicitCastExpr', 'ParenExpr') and chain[i].get('castKind', 'LValueToRValue') in ('LValueToRValue', 'NoOp'):
+                i += 1
+            ok = False
+            field = None
+            if i < len(chain) and chain[i].get('kind') == 'MemberExpr':
+                field = chain[i].get('name')
+                j = i + 1
+                while j < len(chain) and chain[j].get('kind') == 'ParenExpr':
+                    j += 1
+                ok = j < len(chain) and chain[j].get('kind') == 'ImplicitCastExpr' and chain[j].get('castKind') == 'LValueToRValue'
+                use = chain[j] if j < len(chain) else chain[i]
+            else:
+                use = chain[i] if i < len(chain) else n
+            sites.append((line_of(n), field))
+            if not ok:
+                bad.append(dict(line=line_of(n) or line_of(use), field=field, use=use.get('kind'), opcode=use.get('opcode')))
+        for c in n.get('inner', []) or []:
+            walk(c, anc + [n])
+    walk(fn, [])
+    if not sites:
+        raise CheckerError('parse_sentence never reads its config parameter (frame scan found no occurrence)')
+    recs = []
+    recs.append(dict(kind='frame-config-scan', line=line_of(fn), goal=z3.BoolVal(not bad), pc=[], facts=[], props=('C11',), path=0, site=f'{len(sites)} uses',
+                     what=('every use of the parameter config in parse_sentence is a member read (%d uses)' % len(sites)) if not bad else
+                          ('parse_sentence writes or leaks *config, which parsing.pyx shares between all sentences of a run: ' +
+                           '; '.join(f"parsing.h:{b['line']} config->{b['field']} used by {b['use']}{' ' + b['opcode'] if b['opcode'] else ''}" for b in bad[:4]))))
+    return recs
